@@ -382,6 +382,8 @@ class Program:
                     return getattr(recv, fn.attr)(*args)
                 raise CannotFold(f"method on non-str: {unparse(node)}")
             cname = unparse(fn)
+            if env is not None and cname in env.get("__stubs__", {}):
+                return env["__stubs__"][cname](f, node)          # an abstract callee supplied by the rule (gets the folder and the call)
             if cname == "len" and len(node.args) == 1:
                 return len(f(node.args[0]))
             if cname in ("str", "int", "bool", "abs") and len(node.args) == 1 and not node.keywords:
@@ -392,6 +394,8 @@ class Program:
                     return {"str": str, "int": int, "bool": bool, "abs": abs}[cname](v_)
                 except (ValueError, TypeError):
                     raise CannotFold(f"conversion fails: {unparse(node)[:60]}")
+            if cname in ("any", "all", "sum") and len(node.args) == 1 and not node.keywords:
+                return {"any": any, "all": all, "sum": sum}[cname](f(node.args[0]))
             if cname == "re.escape" and len(node.args) == 1:
                 import re as _re
                 return _re.escape(f(node.args[0]))
@@ -425,6 +429,8 @@ class Program:
                 body = [st for st in h.node.body if not (isinstance(st, ast.Expr) and isinstance(st.value, ast.Constant))]
                 if body and isinstance(body[-1], ast.Return) and body[-1].value is not None and len(node.args) == len(h.params):
                     env2 = dict(zip(h.params, [f(a) for a in node.args]))
+                    if env is not None and "__stubs__" in env:
+                        env2["__stubs__"] = env["__stubs__"]
                     self._propagate(mod, body[:-1], env2, fn.id)
                     return self.fold(mod, body[-1].value, env2)
             raise CannotFold(f"call not foldable: {unparse(node)}")
